@@ -9,9 +9,45 @@ import Xandikos.Http.Discovery
 import Xandikos.Http.Multiget
 import Xandikos.Py.UrlQuoteJoin
 import Xandikos.Py.PathProofs2
+import Xandikos.Tie.WellknownEq
 
 namespace Xandikos.Theorems.C18
 open Xandikos Xandikos.Http Xandikos.Store Xandikos.Py
+
+/-! ## Part 0 — the `.well-known` entry point -/
+
+/-- **the code is the model**: the redirect condition of `WellknownRedirector.__call__` and the
+    set `WELLKNOWN_DAV_PATHS`, as translated from /repo on this run -/
+theorem code_is_model_wellknown (script pathInfo : List Char) :
+    Generated.wellknown_redirects script pathInfo = wellknownRedirects script pathInfo :=
+  Tie.wellknown_redirects_eq script pathInfo
+
+/-- **both well-known URLs are redirected however the container mounts the redirector**: for
+    every way of dividing `/.well-known/caldav` (or `…/carddav`) into `SCRIPT_NAME` and
+    `PATH_INFO` — redirector at the server root, at an alias for `/.well-known`, at the exact
+    URL — the translated code answers with the redirect -/
+theorem wellknown_redirects_any_mount (wk script pathInfo : List Char)
+    (hwk : wk ∈ wellknownPaths) (hsplit : script ++ pathInfo = wk) :
+    Generated.wellknown_redirects script pathInfo = true := by
+  rw [code_is_model_wellknown]
+  unfold wellknownRedirects
+  rw [hsplit]
+  simp only [wellknownPaths, List.mem_cons, List.not_mem_nil, or_false] at hwk
+  rcases hwk with h | h <;> subst h <;> decide +kernel
+
+/-- …and nothing else is: a request is intercepted only if its normalised path *is* one of the
+    two well-known paths, so no path under the DAV root is ever redirected away -/
+theorem wellknown_redirects_only (script pathInfo : List Char)
+    (h : Generated.wellknown_redirects script pathInfo = true) :
+    Path.normpath (script ++ pathInfo) ∈ wellknownPaths := by
+  rw [code_is_model_wellknown] at h
+  unfold wellknownRedirects at h
+  exact List.contains_iff_mem.mp h
+
+/-- non-vacuity: the alias mount -/
+example : Generated.wellknown_redirects "/.well-known".toList "/caldav".toList = true := by decide +kernel
+/-- a DAV path is passed through -/
+example : Generated.wellknown_redirects "/dav".toList "/user/calendars/".toList = false := by decide +kernel
 
 /-! ## Part 1 — hrefs -/
 
